@@ -134,6 +134,7 @@ fn run_once_x(case: &Case, sc: &Scratch, tag: &str, faults: &BTreeMap<(String, u
             Op::Flush => sess.flush(),
             Op::Advance(ms) => hh.advance(*ms * MS),
             Op::FailWrite(_) => {} // not generated for this property (faults come from its own enumeration)
+            Op::MoveAwayAndReopen => {}
         }
         if slow_cleanup {
             let fired = !hh.points.lock().unwrap().faults_hit.is_empty();
@@ -399,6 +400,7 @@ fn real_write_failure(case: &Case, sc: &Scratch) -> Result<(bool, String), (Stri
                 }
             }
             Op::Advance(ms) => hh.advance(*ms * MS),
+            Op::MoveAwayAndReopen => {}
         }
         if guard.is_some() && i + 1 >= start + len {
             guard = None;
